@@ -1902,7 +1902,7 @@ def run(ctx):
     mark("schedules")
     # first use of lazily initialised state, each execution in a fresh interpreter (0.6 s each): single-preemption space
     small = ["offset-patterns", "instant-repr", "iso-patterns", "calendar-hebrew"]
-    fu = [(n, "line", 1, 60) for n in small[:2]] + [("date-adjusters", "line", 2, 120), ("time-unit-arithmetic", "line", 2, 120), ("stdlib-bridges", "line", 2, 120), ("text-format-parse", "line", 2, 160)]
+    fu = [(n, "line", 1, 60) for n in small[:2]] + [("date-adjusters", "line", 2, 120), ("time-unit-arithmetic", "line", 2, 120), ("stdlib-bridges", "line", 2, 120), ("text-format-parse", "line", 2, 160), ("weekyear-rules", "line", 1, 100)]
     if tier != "quick":
         fu = [(n, "line", 1, 2500) for n in small + ["calendar-islamic", "weekyear-rules", "tzdb-provider", "fixed-zones"]] + [("date-adjusters", "line", 2, 2500), ("time-unit-arithmetic", "line", 2, 2500), ("stdlib-bridges", "line", 2, 2500), ("text-format-parse", "line", 2, 2500)]
     for acc in pmap(_first_use_shard, fu, procs=4):
